@@ -37,6 +37,8 @@ def unary (op : String) (a : List Nat) : String :=
   | "ustr_str" => if isAscii a then showBytes "ok" (tryFromBorrowed a) else "bad-op"
   | "ustring_bytes" => showBytes "ok" (tryFromOwned a)
   | "ustring_vec" => showBytes "ok" (tryFromOwned a)
+  | "ustring_vec_cap" => showBytes "ok" (tryFromOwned a)
+  | "ustring_string_cap" => if isAscii a then showBytes "ok" (tryFromOwned a) else "bad-op"
   | "ustring_str" => if isAscii a then showBytes "ok" (tryFromOwned a) else "bad-op"
   | "ustring_string" => if isAscii a then showBytes "ok" (tryFromOwned a) else "bad-op"
   | "ustring_fromstr" => if isAscii a then showBytes "ok" (tryFromOwned a) else "bad-op"
